@@ -79,6 +79,15 @@ theorem c12_clean_unique (g : Getter) (r : List Sample) (hr : StrictT r)
   intro z
   rw [hmem z, c12_clean_status, c12_dedup_keeps_last]
 
+-- non-vacuity: of three samples at time 3 exactly the last one is a member
+example : (⟨3, .num 9, "warn"⟩ : Sample) ∈ dedup [⟨3, .num 7, "nominal"⟩, ⟨1, .num 0, "nominal"⟩, ⟨3, .num 8, "error"⟩,
+      ⟨3, .num 9, "warn"⟩] ∧
+    (⟨3, .num 8, "error"⟩ : Sample) ∉ dedup [⟨3, .num 7, "nominal"⟩, ⟨1, .num 0, "nominal"⟩, ⟨3, .num 8, "error"⟩,
+      ⟨3, .num 9, "warn"⟩] := by
+  constructor
+  · rw [c12_dedup_keeps_last]; decide +kernel
+  · rw [c12_dedup_keeps_last]; decide +kernel
+
 -- the repository's own clean-up example (test_sensor_cleanup), unsorted with a run of four
 example :
     clean { dtype := .str, hasStatus := true, samples :=
@@ -129,6 +138,11 @@ example : interp [(0, 0), (2, 4), (3, 10)] (5 / 2) = 7 ∧ interp [(0, 0), (2, 4
     interp [(0, 0), (2, 4), (3, 10)] (-1) = 0 ∧ interp [(0, 0), (2, 4), (3, 10)] 9 = 10 := by
   decide +kernel
 
+-- non-vacuity of `c12_interp_between` / `c12_interp_convex`: a point inside the second segment
+example : interp ([(0, 0)] ++ (2, 4) :: (3, 10) :: [(5, 1)]) (5 / 2) = 4 + (10 - 4) * (5 / 2 - 2) / (3 - 2) :=
+  c12_interp_between [(0, 0)] 2 4 3 10 [(5, 1)] (by simp [StrictX]; decide +kernel) (5 / 2)
+    (by decide +kernel) (by decide +kernel)
+
 example : StrictX [(0, 0), (2, 4), (3, 10)] ∧ MonoY [(0, 0), (2, 4), (3, 10)] := by
   constructor <;> simp [StrictX, MonoY] <;> decide +kernel
 
@@ -160,6 +174,13 @@ example : extract { dtype := .float, hasStatus := false, samples := [⟨4, .num 
     [0, 1, 2, 3, 4, 5, 6, 7, 8, 9] 1 { timeOffset := some (-1) } =
     .ok (.arr [.num 3, .num 3, .num 3, .num 3, .num 4, .num 5, .num 6, .num 6, .num 6, .num 6]) := by
   decide +kernel   -- katdal's own test_sensor_time_offset
+
+-- non-vacuity of `c12_extract_numeric`: unsorted samples, a duplicate, an unreadable status
+example : extract { dtype := .float, hasStatus := true, samples :=
+      [⟨6, .num 8, "nominal"⟩, ⟨2, .num 0, "nominal"⟩, ⟨2, .num 4, "warn"⟩, ⟨4, .num 100, "failure"⟩] }
+    [1, 2, 3, 5, 7] 1 {} =
+    .ok (.arr ([1, 2, 3, 5, 7].map fun x => Val.num (interp [(2, 4), (6, 8)] x))) :=
+  c12_extract_numeric _ _ _ _ [(2, 4), (6, 8)] (by decide +kernel) (by decide +kernel) (by decide +kernel)
 
 /-! ## 4. extraction never alters the raw samples; aliases -/
 
@@ -273,6 +294,16 @@ theorem c12_alias_same_values (s : Cache) (a b : String) (id : Nat) (g : Getter)
   rw [this]
   simp
 
+-- non-vacuity: `foo` and `bar` of `demo` share getter 0
+example : (get (get (demo false) "foo" false true { timeOffset := some 1 }).2 "bar" false true
+      { timeOffset := some 1 }).1 = .ok (.full (.arr
+        [.num 3, .num 3, .num 3, .num 3, .num 3, .num 3, .num 4, .num 5, .num 6, .num 6])) :=
+  (c12_alias_same_values (demo false) "foo" "bar" 0
+    { dtype := .float, hasStatus := false, samples := [⟨4, .num 3, ""⟩, ⟨7, .num 6, ""⟩] }
+    (.arr [.num 3, .num 3, .num 3, .num 3, .num 3, .num 3, .num 4, .num 5, .num 6, .num 6])
+    { timeOffset := some 1 } rfl (by decide) (by decide) (by decide +kernel) (by decide +kernel)
+    (by decide +kernel) (by decide +kernel) (by decide +kernel)).2
+
 /-- the code as found breaks it: the alias read second is shifted twice -/
 theorem c12_alias_inplace_is_false :
     (get (get (demo true) "foo" false true { timeOffset := some 1 }).2 "bar" false true
@@ -346,6 +377,16 @@ theorem c12_cache_stable (ops : List Op) : ∀ (s : Cache) (name : String) (c : 
     exact ih _ name c kw (step_frame s op hin).2 (fun o ho => hs o (List.mem_cons_of_mem _ ho))
       (step_keeps s op name c hin (hs op (by simp)) h)
 
+-- non-vacuity of `c12_cache_stable`: alias read, new selection, virtual sensor, foreign assignment
+example :
+    let s0 := (get (demo false) "foo" false true {}).2
+    let ops := [Op.get "bar" true true { timeOffset := some 1 }, .setKeep (some (.list [9, 0])),
+                .get "Timestamps/mjd" false true {}, .setData "bar" (.arr []), .del "bar"]
+    (get (run s0 ops) "foo" true true { timeOffset := some 7 }).1 =
+      select (.arr [.num 3, .num 3, .num 3, .num 3, .num 3, .num 4, .num 5, .num 6, .num 6, .num 6])
+        (run s0 ops).keep :=
+  (c12_cache_stable _ _ "foo" _ _ (by decide +kernel) (by decide) (by decide +kernel)).2
+
 /-- in particular a second read, with whatever properties, returns what the first one returned -/
 theorem c12_repeated_access_same (s : Cache) (n : String) (id : Nat) (g : Getter) (c : Cached)
     (sel : Bool) (kw kw' : Props) (h : s.raw.lookup n = some (.getter id))
@@ -402,6 +443,12 @@ theorem c12_dummy_per_dtype (g : Getter) (p : Props) (dumps : List Rat) (period 
   intro d _
   simp only [catAt, List.map_cons, List.map_nil, applyTransform]
   by_cases hle : (0 : Rat) ≤ d + period / 2 <;> simp [hle]
+
+-- non-vacuity of `c12_dummy_per_dtype`: a bool sensor whose only sample is unreadable
+example : extract { dtype := .bool, hasStatus := true, samples := [⟨101, .bool true, "failure"⟩] }
+    [100, 101] 1 {} = .ok (.cat ([100, 101].map fun _ => dummyVal .bool)) :=
+  c12_dummy_per_dtype _ _ _ _ 101 (by decide +kernel) rfl (by decide) rfl rfl (by decide +kernel)
+    (by decide +kernel)
 
 theorem c12_dummy_values : dummyVal .float = .nan ∧ dummyVal .int = .int (-1) ∧
     dummyVal .str = .str "" ∧ dummyVal .bool = .bool false ∧ dummyVal .obj = .none :=
@@ -496,6 +543,14 @@ theorem c12_virtual_azel (s : Cache) (name ant which : String) (vs : List Val)
   simp only [hant, hw, ne_eq, not_false_eq_true, and_self, if_true]
   simp only [fullArr, getPlain, Bool.not_true, Bool.and_false, Bool.false_eq_true, if_false, hsrc]
 
+-- non-vacuity of `c12_virtual_azel`
+example : runVirt { demo false with raw := [("m000_pos_actual_scan_elev", .data (.arr [.num 90, .nan]))] }
+    "Antennas/m000/el" .azel =
+    some (.ok [.app "deg2rad" (.num 90), .app "deg2rad" .nan],
+      { demo false with raw := [("m000_pos_actual_scan_elev", .data (.arr [.num 90, .nan]))] }) :=
+  c12_virtual_azel _ "Antennas/m000/el" "m000" "el" [.num 90, .nan] (by decide +kernel) (by decide)
+    (by decide) (by decide +kernel)
+
 /-- a virtual sensor is computed once, stored under its name and from then on behaves like any
     cached sensor (so `c12_cache_stable` applies to it) -/
 theorem c12_virtual_cached (s s' : Cache) (name : String) (vs : List Val) (sel ext : Bool) (kw : Props)
@@ -505,11 +560,13 @@ theorem c12_virtual_cached (s s' : Cache) (name : String) (vs : List Val) (sel e
     (get s name sel ext kw).2.raw.lookup name = some (.data (.arr vs)) := by
   unfold Sensor.get
   simp only [hse, Bool.false_eq_true, if_false, hnone, hv]
-  exact ⟨rfl, lookup_dictSet_self name _ _⟩
+  refine ⟨?_, lookup_dictSet_self name _ _⟩
+  first | trivial | rfl
 
 def demoAz : Cache :=
-  { demo false with raw := [("m000_pos_actual_scan_azim", .getter 0)], keep := .mask
-      [true, false, false, false, false, true, false, false, false, false] }
+  { demo false with
+    raw := [("m000_pos_actual_scan_azim", .getter 0)],
+    keep := .mask [true, false, false, false, false, true, false, false, false, false] }
 
 example : (get demoAz "Antennas/m000/az" true true {}).1 =
     .ok (.sel [.app "deg2rad" (.num 3), .app "deg2rad" (.num 4)]) ∧
